@@ -34,6 +34,15 @@ claim('C09',
       'TLA+ loop state machine + TLC exhaustive check + replay of every maximal behaviour into the real solvers', '5.1, 6/C09')
 
 
+claim('C22',
+      'TLC enumerates every scenario of spec/mech/Violation.tla (values x per-element bound patterns x scalings x driver_scaling), '
+      'checks ZeroIffSatisfied, SignLaw and AgreesWithDriverSpace (the scaled violation equals what the optimizer space measures, incl. '
+      'negative scalers) and exports the exact expected vector; each scenario is executed on a real Problem through '
+      'Driver.get_constraint_values(viol=True) and Driver._compute_con_viol.',
+      'Constraints without units=; values and bounds from small rational sets; n<=2 exhaustive (quick), n=3 sampled (thorough).',
+      'TLA+ exact-rational oracle + TLC scenario enumeration + replay of every scenario into the driver', '5.8, 6/C22')
+
+
 def main():
     checks = []
     for pid in ALL:
